@@ -17,7 +17,7 @@ for _f in sorted(glob.glob(os.path.join(_here, "c[0-9][0-9]", "prop.py"))):
     PROPS[_pid] = _p
 
 # Only properties the lead has reviewed and run at several seeds are claimed in MANIFEST.json.
-READY = ["C01", "C02", "C03", "C04", "C05", "C06", "C07", "C10", "C11", "C19", "C20", "C12", "C13", "C14", "C15", "C16", "C17", "C18"]
+READY = ["C01", "C02", "C03", "C04", "C05", "C06", "C07", "C08", "C09", "C10", "C11", "C19", "C20", "C12", "C13", "C14", "C15", "C16", "C17", "C18"]
 CLAIMED = {p: PROPS[p] for p in READY if p in PROPS}
 
 VALID_LEVELS = {"exploration", "fault_enumeration", "model_checking", "proof", "translation_validation", "other"}
